@@ -15,7 +15,7 @@ import (
 func init() {
 	register(&PropSpec{
 		ID:       "C04",
-		Patterns: []string{"./pkg/router"},
+		Patterns: []string{"./pkg/router", "./pkg/cel/extract"},
 		Explanation: "(R1) host names are lower-cased on both sides: every domain that feeds the host tables in NewRouters and the request host in findVirtualHost flow through strings.ToLower; " +
 			"(R2) precedence: in findHighestPriorityIndex the decision points, tagged by the data they consult — (exact map, port), (exact map, \"*\"), (wildcard list of port), (wildcard list of \"*\"), default — are reachable only through the miss edges of the earlier ones, and each wildcard scan is a forward range loop that returns at the first suffix match under the guard hostLen < len(host); " +
 			"(R3) longest suffix first: every wildcard list is sorted after the last insertion and the comparator orders by decreasing hostLen; (R4) first match in configuration order: GetRouteFromEntries is a forward range over routes returning at the first non-nil Match, routes are only appended or truncated, never reordered; " +
